@@ -144,6 +144,7 @@ func cmdC20(args []string) {
 	dir := fs.String("dir", "", "")
 	patFile := fs.String("patterns", "", "")
 	outPath := fs.String("out", "", "")
+	label := fs.String("label", "", "prefix for a second set of counters (transplanted examples)")
 	fs.Parse(args)
 	core.Init()
 	out := core.NewOut(*outPath)
@@ -165,9 +166,21 @@ func cmdC20(args []string) {
 	ctx := linter.NewContext(pkgs[0].Fset, nil)
 	set := newSet(ctx, infos)
 	samples := 0
+	add := func(k string, n int) {
+		cnt.Add(k, n)
+		if *label != "" {
+			cnt.Add(*label+"_"+k, n)
+		}
+	}
 	for _, p := range pkgs {
 		ctx.SizesInfo = p.Sizes
 		ctx.SetPackageInfo(p.Info, p.Types)
+		if *label != "" {
+			cnt.Put(*label+"_packages_type_checked", p.PkgPath)
+			if parts := strings.Split(p.PkgPath, "/"); len(parts) >= 3 {
+				cnt.Put(*label+"_checkers_with_type_checked_examples", parts[2])
+			}
+		}
 		for i, f := range p.Files {
 			ctx.SetFileInfo(filepath.Base(p.Paths[i]), f)
 			for _, c := range set {
@@ -177,7 +190,7 @@ func cmdC20(args []string) {
 				}
 				sub := subjects[c.Info.Name]
 				for _, w := range ws {
-					cnt.Add("diagnostics_of_api_checkers", 1)
+					add("diagnostics_of_api_checkers", 1)
 					nodes := flaggedNodes(f, w.Pos)
 					if len(nodes) == 0 {
 						cnt.Add("inconclusive_no_node", 1)
@@ -203,6 +216,9 @@ func cmdC20(args []string) {
 									cand = append(cand, name)
 									if pn, ok := p.Info.Uses[id].(*types.PkgName); ok && pn.Imported().Path() == pkgPath[id.Name] {
 										real = append(real, name)
+									} else if aliasOfReal(p.Info.Uses[n.Sel], pkgPath[id.Name]) {
+										// a type alias of the real type IS the real type
+										real = append(real, name)
 									} else {
 										fake = append(fake, fmt.Sprintf("%s -> %v", name, p.Info.Uses[id]))
 									}
@@ -217,16 +233,16 @@ func cmdC20(args []string) {
 					d := core.ToDiag(p.Fset, c.Info.Name, w)
 					switch {
 					case len(cand) == 0:
-						cnt.Add("inconclusive_no_candidate_spelling", 1)
+						add("inconclusive_no_candidate_spelling", 1)
 					case len(real) > 0:
-						cnt.Add("resolved_to_real_api", 1)
+						add("resolved_to_real_api", 1)
 						cnt.Put("checkers_confirmed_on_real_api", c.Info.Name)
 						if samples < 4 {
 							samples++
 							out.Emit(core.Sample{Kind: "sample", Sample: map[string]interface{}{"checker": c.Info.Name, "file": p.Paths[i], "line": d.Line, "text": d.Text, "callee": real[0], "resolves_to": "real API"}})
 						}
 					default:
-						cnt.Add("namesake_reports", 1)
+						add("namesake_reports", 1)
 						// one record per distinct namesake callee, so the key names exactly one (checker, API) pair
 						for _, callee := range uniq(cand) {
 							out.Emit(core.V("C20", "namesake:"+c.Info.Name+":"+callee, fmt.Sprintf("%s reported %q at %s:%d:%d but %s", c.Info.Name, d.Text, p.Paths[i], d.Line, d.Col, strings.Join(fake, "; ")),
@@ -240,4 +256,13 @@ func cmdC20(args []string) {
 	}
 	out.Emit(cnt.Stat())
 	out.Emit(map[string]interface{}{"kind": "done"})
+}
+
+func aliasOfReal(o types.Object, realPath string) bool {
+	tn, ok := o.(*types.TypeName)
+	if !ok || !tn.IsAlias() {
+		return false
+	}
+	n, ok := types.Unalias(tn.Type()).(*types.Named)
+	return ok && n.Obj().Pkg() != nil && n.Obj().Pkg().Path() == realPath
 }
